@@ -43,7 +43,8 @@ def gen_fields(rng):
     fields.sort(key=lambda f: f["default"] is not None)  # required first (python syntax for class / dataclass)
     nested = None
     if rng.random() < 0.3:
-        nested = dict(name="sub", fields=[dict(name="z", ann="int", vals=[("5", 5)], default="1"), dict(name="w", ann="str", vals=[("q", "q")], default="'w'")], override={"z": "5"} if rng.random() < 0.6 else {})
+        nested = dict(name="sub", fields=[dict(name="z", ann="int", vals=[("5", 5)], default="1"), dict(name="w", ann="str", vals=[("q", "q")], default="'w'")], override={"z": "5", "w": "'ov'"} if rng.random() < 0.6 else {},
+                      inner=rng.random() < 0.5)  # inner: SubDC's first field is itself a dataclass with an overridden default
     return fields, nested
 
 
@@ -59,15 +60,17 @@ def dc_default(f):
 def make_source(fields, nested):
     src = HEADER
     if nested:
-        src += "@dataclass\nclass SubDC:\n" + "".join(f"    {f['name']}: {f['ann']} = {f['default']}\n" for f in nested["fields"])
-        src += "class SubCls:\n    def __init__(self, " + ", ".join(f"{f['name']}: {f['ann']} = {f['default']}" for f in nested["fields"]) + "):\n        pass\n"
+        if nested.get("inner"):
+            src += "@dataclass\nclass KDC:\n    q: int = 1\n    r: str = 'r'\n"
+        src += "@dataclass\nclass SubDC:\n" + ("    kk: KDC = field(default_factory=KDC)\n" if nested.get("inner") else "") + "".join(f"    {f['name']}: {f['ann']} = {f['default']}\n" for f in nested["fields"])
+        src += "" if True else ""
     src += "@dataclass\nclass GroupDC:\n"
     req = [f for f in fields if f["default"] is None]
     opt = [f for f in fields if f["default"] is not None]
     for f in req:
         src += f"    {f['name']}: {f['ann']}\n"
     if nested:
-        ov = ", ".join(f"{k}={v}" for k, v in nested["override"].items())
+        ov = ", ".join(([f"kk=KDC(q=9)"] if nested.get("inner") and nested["override"] else []) + [f"{k}={v}" for k, v in nested["override"].items()])
         src += f"    sub: SubDC = field(default_factory=lambda: SubDC({ov}))\n"
     for f in opt:
         src += f"    {f['name']}: {f['ann']}{dc_default(f)}\n"
@@ -75,7 +78,7 @@ def make_source(fields, nested):
         src += "    pass\n"
     src += "class GroupCls:\n    def __init__(self, " + ", ".join(
         [f"{f['name']}: {f['ann']}" for f in req]
-        + ([f"sub: SubDC = SubDC({', '.join(f'{k}={v}' for k, v in nested['override'].items())})"] if nested else [])
+        + ([f"sub: SubDC = SubDC({', '.join(([f'kk=KDC(q=9)'] if nested.get('inner') and nested['override'] else []) + [f'{k}={v}' for k, v in nested['override'].items()])})"] if nested else [])
         + [f"{f['name']}: {f['ann']} = {f['default']}" for f in opt]
     ) + "):\n        pass\n"
     return src
@@ -94,6 +97,9 @@ def build(style, mod, fields, nested, eoe=False):
             else:
                 q.add_argument(f"--{prefix}{f['name']}", type=eval(f["ann"], vars(mod)), required=True)
         if nested:
+            if nested.get("inner"):
+                q.add_argument(f"--{prefix}sub.kk.q", type=int, default=9 if nested["override"] else 1)
+                q.add_argument(f"--{prefix}sub.kk.r", type=str, default="r")
             for sf in nested["fields"]:
                 d = nested["override"].get(sf["name"], sf["default"])
                 q.add_argument(f"--{prefix}sub.{sf['name']}", type=eval(sf["ann"], vars(mod)), default=eval(d, vars(mod)))
